@@ -17,6 +17,7 @@ import (
 	"os"
 	"strconv"
 	"strings"
+	"testing/iotest"
 
 	"github.com/cosmos72/gomacro/base"
 
@@ -60,13 +61,15 @@ func c26SplitLines(text string) [][]byte {
 }
 
 const (
-	c26Buf      = iota // base.MakeBufReadline over the whole text (EvalReader / EvalFile)
-	c26BufNoNL         // the same, text without the final newline
-	c26Scripted        // scripted terminal-like Readline, one line per Read
+	c26Buf        = iota // base.MakeBufReadline over the whole text, bufio.NewReader (4096-byte buffer) as EvalReader / EvalFile do
+	c26BufNoNL           // the same, text without the final newline
+	c26Scripted          // scripted terminal-like Readline, one line per Read: the reference delivery
+	c26BufSmall          // base.MakeBufReadline over bufio.NewReaderSize(16): every line longer than 16 bytes exceeds the buffer
+	c26BufOneByte        // base.MakeBufReadline over a source that delivers one byte per Read and the last byte together with io.EOF
 	c26NDelivery
 )
 
-var c26DeliveryName = []string{"BufReadline", "BufReadline,no final newline", "line-by-line Readline"}
+var c26DeliveryName = []string{"BufReadline", "BufReadline,no final newline", "line-by-line Readline", "BufReadline,16-byte bufio buffer", "BufReadline,source delivers single bytes"}
 
 type c26Chunk struct {
 	Text  string
@@ -84,6 +87,10 @@ func c26Read(text string, delivery int, opts base.ReadOptions) (chunks []c26Chun
 		text = strings.TrimSuffix(text, "\n")
 		expected = strings.TrimSuffix(expected, "\n")
 		rl = base.MakeBufReadline(bufio.NewReader(strings.NewReader(text)))
+	case c26BufSmall:
+		rl = base.MakeBufReadline(bufio.NewReaderSize(strings.NewReader(text), 16))
+	case c26BufOneByte:
+		rl = base.MakeBufReadline(bufio.NewReader(iotest.DataErrReader(iotest.OneByteReader(strings.NewReader(text)))))
 	default:
 		rl = &c26Lines{lines: c26SplitLines(text)}
 		if expected != "" && !strings.HasSuffix(expected, "\n") {
@@ -282,12 +289,21 @@ type c26Case struct {
 }
 
 type c26Stats struct {
-	evals, lossless, complete, chunks, exemptDot, notLexical, firstTokenDiff int64
+	evals, lossless, complete, chunks, exemptDot, notLexical, firstTokenDiff, deliveryDiff int64
 }
 
 // c26Check runs every delivery x option combination on one input text.
 // complete: the text is a sequence of complete statements/declarations (go/parser accepts it).
 func c26Check(vc *vcollector, ks *keyset, st *c26Stats, idx int64, origin, text string, asStmts bool) {
+	c26CheckDeliveries(vc, st, idx, origin, text, asStmts, c26AllDeliveries)
+}
+
+// the line-by-line Readline comes first: its chunks are the reference for the deliveries that read the same text
+// through a bufio.Reader (the chunks are a function of the text, not of buffer sizes or of how the source hands out bytes)
+var c26AllDeliveries = []int{c26Scripted, c26Buf, c26BufNoNL, c26BufSmall, c26BufOneByte}
+var c26BaseDeliveries = []int{c26Scripted, c26Buf, c26BufNoNL}
+
+func c26CheckDeliveries(vc *vcollector, st *c26Stats, idx int64, origin, text string, asStmts bool, deliveries []int) {
 	// the oracle works on the text as the reader is specified to return it
 	oracleText := strings.Replace(text, "\u2029", "\n", -1)
 	if strings.HasPrefix(oracleText, "#!") {
@@ -344,8 +360,10 @@ func c26Check(vc *vcollector, ks *keyset, st *c26Stats, idx int64, origin, text 
 		}
 		return ok
 	}
-	for delivery := 0; delivery < c26NDelivery; delivery++ {
-		for _, opts := range []base.ReadOptions{0, base.ReadOptCollectAllComments} {
+	var ref [2][]c26Chunk
+	var refOK [2]bool
+	for _, delivery := range deliveries {
+		for oi, opts := range []base.ReadOptions{0, base.ReadOptCollectAllComments} {
 			st.evals++
 			tag := "ReadOptCollectAllComments off"
 			if opts != 0 {
@@ -356,6 +374,21 @@ func c26Check(vc *vcollector, ks *keyset, st *c26Stats, idx int64, origin, text 
 				expected = "//" + expected[2:]
 			}
 			st.chunks += int64(len(chunks))
+			if delivery == c26Scripted {
+				ref[oi], refOK[oi] = chunks, rerr == ""
+			} else if delivery != c26BufNoNL && refOK[oi] && rerr == "" && strings.HasSuffix(text, "\n") {
+				if d := c26ChunksDiffer(ref[oi], chunks); d >= 0 {
+					st.deliveryDiff++
+					got, want := "nothing", "nothing"
+					if d < len(chunks) {
+						got = short(chunks[d].Text) + fmt.Sprintf(" (%d bytes, first token at %d)", len(chunks[d].Text), chunks[d].First)
+					}
+					if d < len(ref[oi]) {
+						want = short(ref[oi][d].Text) + fmt.Sprintf(" (%d bytes, first token at %d)", len(ref[oi][d].Text), ref[oi][d].First)
+					}
+					vc.add(idx, "C26|chunks-depend-on-delivery|"+c26DeliveryName[delivery], mk(delivery, opts, fmt.Sprintf("%d chunks, the line-by-line Readline gives %d for the same text; chunk #%d is %s, line-by-line %s", len(chunks), len(ref[oi]), d, got, want)))
+				}
+			}
 			var sb strings.Builder
 			for _, ch := range chunks {
 				sb.WriteString(ch.Text)
@@ -412,6 +445,16 @@ func c26Check(vc *vcollector, ks *keyset, st *c26Stats, idx int64, origin, text 
 			}
 		}
 	}
+}
+
+// c26ChunksDiffer returns the index of the first chunk that differs (text or first-token offset), -1 if none.
+func c26ChunksDiffer(a, b []c26Chunk) int {
+	for i := 0; i < len(a) || i < len(b); i++ {
+		if i >= len(a) || i >= len(b) || a[i] != b[i] {
+			return i
+		}
+	}
+	return -1
 }
 
 func c26ErrClass(msg string) string {
